@@ -8,7 +8,7 @@ import types
 import warnings
 
 LEVEL = "fault_enumeration"
-RULE = ("For each scenario (async chain with nested generator-based managers and an ExitStack; blocked thread; custom stack "
+RULE = ("For each scenario (async chain with nested generator-based managers and an ExitStack; a coroutine suspended in the __aexit__ of a generator-based manager that has an unwrap_context_generator hook (the glue's nested extract_outermost); blocked thread; custom stack "
         "items incl. a yields_frames source and an inserting elaborate hook; greenlet and Trio nursery tree on the 3.12 leg) the "
         "dynamic invocations of {unwrap_stackitem, FrameIterator step, elaborate_frame, context analysis, elaborate_context, "
         "unwrap_context, unwrap_context_generator} are counted in a fault-free run; an exception is injected at EVERY global "
@@ -18,7 +18,7 @@ RULE = ("For each scenario (async chain with nested generator-based managers and
         "enclosing stacks keep exactly their fault-free frames, the faulted stack keeps the frames outward of the failure; "
         "format(), format_flat(), as_stdlib_summary() succeed. Plus a fixed list of non-stack inputs. "
         "evaluations = injected runs; distinct_nontrivial = distinct (scenario, fault index tuple).")
-ASSUMPTIONS = ["faults are exceptions derived from Exception raised in place of the hook call",
+ASSUMPTIONS = ["faults are exceptions derived from Exception raised in place of the hook call (single faults: once as a direct Exception subclass and once as a RuntimeError subclass; pairs: Exception subclass)",
                "'Stack under construction' = innermost active extract_child call at injection time"]
 
 
@@ -34,6 +34,10 @@ def bounds(tier):
 
 class Injected(Exception):
     pass
+
+
+class InjectedRuntimeError(RuntimeError):
+    """a fault of a type the library itself raises and catches for its own purposes ('no frames')"""
 
 
 @types.coroutine
@@ -66,6 +70,10 @@ class Harness(object):
         self.parents = {}
         self.nelab = {}
         self.next_id = 0
+        self.outermost_depth = 0
+        self.kstack = []
+        self.expect_own_iter = False
+        self.fault_cls = Injected
         self.installed = False
 
     def hook(self, kind, fn):
@@ -76,12 +84,15 @@ class Harness(object):
             H.n += 1
             H.kind_counts[kind] = H.kind_counts.get(kind, 0) + 1
             cur = H.calls[-1] if H.calls else None
-            if kind == "elaborate_frame" and cur is not None:
+            # invocations made by a nested extract_outermost() (the contextlib glue looking for an exiting manager's
+            # frame) belong to the context stage of the frame being built by `cur`
+            nested = bool(H.kstack) and H.kstack[-1] == "I"
+            if kind == "elaborate_frame" and cur is not None and not nested:
                 H.nelab[cur] = H.nelab.get(cur, 0) + 1
             if idx in H.inject_at:
-                ex = Injected("injected at global invocation %d (%s)" % (idx, kind))
+                ex = H.fault_cls("injected at global invocation %d (%s)" % (idx, kind))
                 ne = H.nelab.get(cur, 0)
-                keep = ne + 1 if kind in ("context_analysis", "elaborate_context", "unwrap_context", "unwrap_context_generator") else ne
+                keep = ne + 1 if nested or kind in ("context_analysis", "elaborate_context", "unwrap_context", "unwrap_context_generator") else ne
                 H.injected.append((idx, kind, ex, cur, keep))
                 raise ex
             return fn(*a, **kw)
@@ -99,7 +110,38 @@ class Harness(object):
             ("X", "contexts_active_in_frame"): X.contexts_active_in_frame, ("X", "elaborate_context"): X.elaborate_context,
             ("X", "unwrap_context"): X.unwrap_context, ("G", "unwrap_context_generator"): G.unwrap_context_generator,
             ("X", "extract_child"): X.extract_child, ("FI", "__next__"): C.FrameIterator.__next__,
+            ("X", "extract_outermost"): X.extract_outermost,
         }
+        orig_outermost = X.extract_outermost
+
+        def extract_outermost(*a, **kw):
+            H.outermost_depth += 1
+            try:
+                return orig_outermost(*a, **kw)
+            finally:
+                H.outermost_depth -= 1
+        X.extract_outermost = extract_outermost
+        orig_iter = X.extract_iter
+
+        def extract_iter(stackitem, save_errors):
+            # an extract_iter() that is not the one an extract_child() call creates for itself is a nested frame
+            # search (extract_outermost or its equivalent), not the construction of a Stack
+            own = H.expect_own_iter
+            H.expect_own_iter = False
+            gen = orig_iter(stackitem, save_errors)
+            while True:
+                if not own:
+                    H.kstack.append("I")
+                try:
+                    fr = next(gen)
+                except StopIteration as e:
+                    return e.value
+                finally:
+                    if not own:
+                        H.kstack.pop()
+                yield fr
+        self.orig[("X", "extract_iter")] = orig_iter
+        X.extract_iter = extract_iter
         X.unwrap_stackitem = self.hook("unwrap_stackitem", X.unwrap_stackitem)
         X.elaborate_frame = self.hook("elaborate_frame", X.elaborate_frame)
         X.contexts_active_in_frame = self.hook("context_analysis", X.contexts_active_in_frame)
@@ -116,9 +158,13 @@ class Harness(object):
             H.next_id += 1
             H.parents[cid] = H.calls[-1] if H.calls else None
             H.calls.append(cid)
+            H.kstack.append("C")
+            H.expect_own_iter = True
             try:
                 st = orig_child(stackitem, for_task=for_task)
             finally:
+                H.expect_own_iter = False
+                H.kstack.pop()
                 H.calls.pop()
             H.stacks[cid] = st
             return st
@@ -134,6 +180,8 @@ class Harness(object):
         X.unwrap_context = self.orig[("X", "unwrap_context")]
         G.unwrap_context_generator = self.orig[("G", "unwrap_context_generator")]
         X.extract_child = self.orig[("X", "extract_child")]
+        X.extract_outermost = self.orig[("X", "extract_outermost")]
+        X.extract_iter = self.orig[("X", "extract_iter")]
         C.FrameIterator.__next__ = self.orig[("FI", "__next__")]
         self.installed = False
 
@@ -148,6 +196,9 @@ class Harness(object):
         self.parents = {}
         self.nelab = {}
         self.next_id = 0
+        self.outermost_depth = 0
+        self.kstack = []
+        self.expect_own_iter = False
         res = None
         exc = None
         import io
@@ -330,6 +381,46 @@ class AsyncChain(Scenario):
             pass
 
 
+class ExitingManagers(Scenario):
+    """a coroutine suspended inside the __aexit__ of a generator-based manager (whose function has an
+    unwrap_context_generator hook): the contextlib glue then looks for the manager's frame with extract_outermost()"""
+    name = "exiting"
+
+    def setup(self):
+        import stackscope
+
+        @contextlib.contextmanager
+        def cmz(tag):
+            yield tag
+
+        @contextlib.asynccontextmanager
+        async def acmz():
+            try:
+                yield 1
+            finally:
+                with cmz("in-finally"):
+                    await trap()
+        stackscope.unwrap_context_generator.register(acmz, lambda frame, context: None)
+        stackscope.unwrap_context_generator.register(cmz, lambda frame, context: None)
+
+        async def A():
+            with cmz("outer-A"):
+                async with acmz():
+                    pass
+        self.coro = A()
+        self.coro.send(None)
+
+    def extract(self):
+        return self.H.ss.extract(self.coro)
+
+    def teardown(self):
+        try:
+            while True:
+                self.coro.send(None)
+        except BaseException:
+            pass
+
+
 class ThreadScenario(Scenario):
     name = "thread"
 
@@ -461,7 +552,7 @@ class GreenletScenario(Scenario):
 
 
 def scenarios(py312):
-    out = [AsyncChain, ThreadScenario, CustomScenario]
+    out = [AsyncChain, ThreadScenario, CustomScenario, ExitingManagers]
     if py312:
         out.append(GreenletScenario)
     return out
@@ -480,6 +571,22 @@ def enumerate_faults(H, sc, arity, ctx, pairs_ok):
     for k, v in base["kinds"].items():
         ctx.count("invocations:" + k, v)
     for i in range(N):
+        # single faults of a RuntimeError type too (the library uses RuntimeError internally for 'no frames here')
+        H.fault_cls = InjectedRuntimeError
+        try:
+            run = H.run(sc.extract, (i,))
+        finally:
+            H.fault_cls = Injected
+        ctx.count("evaluations")
+        ctx.count("distinct_nontrivial")
+        ctx.count("runtimeerror_fault_runs")
+        problems = []
+        if len(run["injected"]) != 1:
+            problems.append("harness: %d faults delivered for index %d" % (len(run["injected"]), i))
+        judge(base, run, problems)
+        if problems:
+            ctx.violation({"scenario": sc.name, "faults": [i], "cls": "RuntimeError", "kind": run["injected"][0][1] if run["injected"] else None},
+                          "; ".join(problems)[:1500], "single-rt:" + (run["injected"][0][1] if run["injected"] else "none"))
         run = H.run(sc.extract, (i,))
         ctx.count("evaluations")
         ctx.count("distinct_nontrivial")
@@ -680,7 +787,9 @@ def replay(case):
 
         def only(H_, sc, arity, ctx, pairs_ok):
             base = H_.run(sc.extract)
+            H_.fault_cls = InjectedRuntimeError if case.get("cls") == "RuntimeError" else Injected
             run = H_.run(sc.extract, tuple(case["faults"]))
+            H_.fault_cls = Injected
             problems = []
             judge(base, run, problems)
             if problems:
@@ -698,7 +807,9 @@ def replay(case):
     H.install()
     try:
         base = H.run(sc.extract)
+        H.fault_cls = InjectedRuntimeError if case.get("cls") == "RuntimeError" else Injected
         run = H.run(sc.extract, tuple(case["faults"]))
+        H.fault_cls = Injected
         problems = []
         judge(base, run, problems)
         if problems:
